@@ -670,7 +670,9 @@ def r17_7(run, modules=("pandapipes.toolbox",), label="the restructuring tools",
         run.ob("%s|%s->%s|forwarded-to-the-same-named-parameter" % (f.short, p_, q), False,
                "in %s every parameter handed on unchanged goes to the callee's parameter of the same name" % label, run.where(f, c),
                detail="%s is bound to %s although %s has the parameter %s" % (p_, q, U(c.func), better))
-    run.ob("parameter-forwardings-examined", n >= min_n and not sites,
+    if n < min_n // 2:
+        raise AnalysisError("only %d parameter-to-parameter bindings found in %s" % (n, "/".join(modules)))
+    run.ob("parameter-forwardings-examined", not sites,
            "parameter-to-parameter bindings in calls of package functions examined: %d, none crossed" % n, "/".join(modules))
     run.floor(1)
 
